@@ -288,6 +288,7 @@ func runRT(rc rtCase, seed int64) vrun.Result {
 		return inconcl("the reader to return after Close")
 	}
 	fs := judge(sn, ws, rs, endInfo{MustDrain: mustDrain})
+	fs = append(fs, healthyClosedFindings(s.w.snap())...)
 	for _, c := range ws {
 		if c.Ret != 0 && c.Err == "" && c.Sit == "closed" {
 			fs = append(fs, finding{6, clBlock, "write-returns-nil-after-close", map[string]any{"call": c}})
